@@ -5,8 +5,8 @@ import runlib as R
 ID = 'C12'
 COQ_TARGETS = ['Props/Properties_C12.vo']
 PROPS_FILES = ['Props/Properties_C12.v']
-THEOREMS = ['C12_combine', 'C12_documented_is_function', 'C12_inherit', 'C12_global_keys', 'C12_syntax', 'C12_checker_sound', 'C12_unfixed_refuted']
-ENGINES = [dict(name='filters', c_sources=['filters_h.c', 'filters_real.c'], extract='Extract/Extract_filters.v',
+THEOREMS = ['C12_combine', 'C12_documented_is_function', 'C12_inherit', 'C12_global_keys', 'C12_syntax', 'C12_refuted', 'C12_spf_temp_class_witness', 'C12_checker_sound_partial', 'C12_unfixed_refuted']
+ENGINES = [dict(name='filters', c_sources=['filters_h.c', 'filters_real.c', 'filters_real2.c'], extract='Extract/Extract_filters.v',
                 driver='filters_driver.ml', accepts=lambda c: c.startswith('cc '))]
 RULE = ('cases = (outcome of each of the 16 filters named in rcpt_cbs[], filterconf bytes at user / domain / global level incl. '
         'absent directory, absent file, empty file, probe key): outcome vectors all-pass / one temporary, error or hard result at '
@@ -30,7 +30,8 @@ TRUSTED_BASE = [
     '(capture), log_*, tarpit, err_control*; gcc 12 -O1 ASan+UBSan -DNDEBUG vs. the production build',
 ]
 ASSUMPTIONS = [
-    'the individual filters are replaced by stand-ins returning the case\'s outcome; what each real filter returns for a session is outside C12\'s theorems',
+    'the individual filters are replaced by stand-ins returning the case\'s outcome, except cb_boolean, cb_smtpbugs, cb_spf, cb_usersize which stage 2 runs for real '
+    '(modelled for sessions without spfignore / rspf / spfstrict files and with an empty reverse lookup); the other twelve real filters are outside C12\'s theorems',
     'a filter returning FILTER_DENIED_WITH_MESSAGE has sent a 5xx reply itself (the stand-in sends 554 5.7.1)',
     'the lines about fail_hard_on_temp / nonexist_on_block at user and domain level are in the documented syntax (bare key or key=<-?digits> fitting a long); '
     'otherwise the checker answers pre and only model-vs-C agreement is checked',
@@ -138,8 +139,52 @@ def _outcomes(rng):
     return bytes(v)
 
 
-def _case(out, u, d, g, key):
-    return 'cc %s %s %s %s %s' % (R.hx(out), R.hx(u), R.hx(d), R.hx(g), R.hx(key))
+def _case(out, u, d, g, key, sess=None):
+    c = 'cc %s %s %s %s %s' % (R.hx(out), R.hx(u), R.hx(d), R.hx(g), R.hx(key))
+    return c + ' ' + R.hx(sess) if sess is not None else c
+
+
+# ---- stage 2: the real cb_boolean, cb_smtpbugs, cb_spf, cb_usersize in their places of rcpt_cbs[]
+REAL = 0x80
+REAL_IDS = {'boolean': 2, 'smtpbugs': 11, 'spf': 13, 'usersize': 14}
+SPF_TEMPERROR = 7
+S2KEYS = [(b'whitelistauth', [b'', b'=1', b'=0', b'=-1']), (b'forcestarttls', [b'', b'=1', b'=-1']), (b'nobounce', [b'', b'=0']),
+          (b'noapos', [b'', b'=2']), (b'usersize', [b'=300', b'=301', b'=299', b'=1', b'=0', b'=-1', b'=65535', b'=70000', b'']),
+          (b'smtp_space_bug', [b'=1', b'=2', b'=3', b'=255', b'=4', b'=0', b'=-1', b'', b'=256', b'=4294967297', b'=4294967551',
+                               b'=9223372036854775807']),
+          (b'spfpolicy', [b'=1', b'=2', b'=3', b'=4', b'=5', b'=6', b'=7', b'=0', b'=-1', b'']),
+          (KFH, [b'', b'=1', b'=0', b'=-1']), (KNE, [b'', b'=0'])]
+
+
+def _s2file(rng):
+    lines = []
+    for k, vals in S2KEYS:
+        if rng.random() < 0.3:
+            lines.append(k + rng.choice(vals))
+    rng.shuffle(lines)
+    return b'\n'.join(lines) + (b'\n' if lines else b'')
+
+
+def _stage2(rng):
+    v = [PASS] * NF
+    for name, i in REAL_IDS.items():
+        if rng.random() < 0.8:
+            v[i] = REAL
+    # a stand-in hard / temporary / whitelist result somewhere, so that the real result has to be combined with it
+    for _ in range(rng.choice([0, 1, 1, 2])):
+        i = rng.randrange(NF)
+        if v[i] != REAL:
+            v[i] = rng.choice([TEMP, UNSPEC, NOUSER, MSG, WHITE, ERR])
+    spf = rng.choice([0, 1, 2, 3, 4, 5, 7, 7, 7, 8, 15, 6, 9])
+    flags = rng.randrange(32)
+    spaces = rng.choice([0, 0, 1, 2, 8])
+    size = rng.choice([0, 1, 299, 300, 301, 302, 65535, rng.randrange(65536)])
+    sess = bytes([spf, flags, spaces, size >> 8, size & 255])
+    u = rng.choice([b'\x00', b'\x01', b'\x02' + _s2file(rng), b'\x02' + _s2file(rng)])
+    d = rng.choice([b'\x01', b'\x02' + _s2file(rng)])
+    g = rng.choice([b'\x01', b'\x02' + _s2file(rng), b'\x02' + _s2file(rng)])
+    key = rng.choice([k for k, _ in S2KEYS])
+    return _case(bytes(v), u, d, g, key, sess)
 
 
 def gen_cases(engine, rng, tier):
@@ -154,6 +199,8 @@ def gen_cases(engine, rng, tier):
         d = _level(rng, keys, [1, 2, 2, 2], well)
         g = _level(rng, keys, [1, 2, 2], well)
         cases.append(_case(_outcomes(rng), u, d, g, key))
+    for i in range(n // 2):
+        cases.append(_stage2(rng))
     return cases
 
 
@@ -171,6 +218,16 @@ def nontrivial(case, c_out):
 
 
 def classify(case, c_out):
+    """spf-temp-own-reply (finding F-C12-3): the real cb_spf is in the table, the SPF status of the session is "temporary
+    error", and the filter has answered itself with its 451 (which it does when an spfpolicy is in force and
+    fail_hard_on_temp is not; Coq: Spec/FiltersSpec.v in_spf_temp_class)."""
+    f = case.split()
+    if len(f) != 7 or not c_out.startswith('rc='):
+        return None
+    out, sess = R.unhx(f[1]), R.unhx(f[6])
+    if len(out) == NF and out[REAL_IDS['spf']] == REAL and len(sess) == 5 and (sess[0] & 15) == SPF_TEMPERROR \
+            and _kv(c_out).get('reply') == R.hx(b'451 4.4.3'):
+        return 'spf-temp-own-reply'
     return None
 
 
